@@ -6,6 +6,7 @@ package path
 //@ prelude c16 c15
 
 //@ func build(source string, parsed any) PropertyPath
+//@   verify [C02]
 //@   requires [C17:ast-shape] wfAst(parsed)
 //@   ensures-assumed [C16:A-PURE] result == buildF(source, parsed)
 //@   ensures [C16:iri] is(parsed, path.IRI) ==> (is(result, path.Property) && result.(path.Property).Iri == parsed.(path.IRI).Value && result.(path.Property).Inverse == parsed.(path.IRI).Inverse && result.(path.Property).Transitive == parsed.(path.IRI).Transitive && result.(path.Property).source == source)
@@ -17,7 +18,7 @@ package path
 //@     invariant [C16] len(acc) == #i && (forall k int :: 0 <= k && k < #i ==> acc[k] == buildF(source, v.body[k]))
 
 //@ func ParsePath(path string) (PropertyPath, error)
-//@   verify [C07]
+//@   verify [C07,C02]
 //@   ensures [C16:empty-is-null-path] path == "" ==> (result1 == nil && is(result0, path.NullPath) && result0.(path.NullPath).source == "")
 //@   ensures [C16:error-or-path] path != "" ==> (result1 != nil ==> result0 == nil)
 
